@@ -14,6 +14,7 @@
 (*   [k |-> "res",   n |-> Nat, sz |-> 1|2]                                *)
 (*   [k |-> "align", n |-> Nat, bits |-> BOOLEAN]                          *)
 (*   [k |-> "fill",  v |-> word, n |-> Int]                                *)
+(*   [k |-> "bin",   b |-> Seq(Byte)]           .binfile of a file holding b *)
 (*   [k |-> "endian", big |-> BOOLEAN]                                     *)
 (*   [k |-> "label", n |-> STRING]                                         *)
 (* An Item is [k |-> "num", v |-> word] | [k |-> "str", b |-> Seq(Byte)]   *)
@@ -44,6 +45,7 @@ Advance(s, pc, bpa) ==
     [] s.k = "res"    -> pc + s.n * s.sz
     [] s.k = "align"  -> AlignUp(pc, AlignBytes(s))
     [] s.k = "fill"   -> pc + (IF s.n >= 1 THEN s.n ELSE 0)
+    [] s.k = "bin"    -> pc + Len(s.b)
     [] OTHER          -> pc
 
 \* symbol table after pass 1: name -> address in units; dup = a name defined twice
@@ -110,6 +112,7 @@ Exec(st, s, bpa, syms) ==
     [] s.k = "fill"   -> IF ~WInRangeS(s.v, -128, 255) \/ s.n < 1 THEN [st EXCEPT !.err = TRUE]
                          ELSE [st EXCEPT !.img = PutSeq(@, st.pc, [j \in 1..s.n |-> s.v[1]], 1),
                                          !.pc = @ + s.n]
+    [] s.k = "bin"    -> [st EXCEPT !.img = PutSeq(@, st.pc, s.b, 1), !.pc = @ + Len(s.b)]
     [] s.k = "endian" -> [st EXCEPT !.big = s.big]
     [] s.k = "label"  -> st
 
